@@ -154,6 +154,12 @@ impl Monitor for C20 {
                     let oracle = oracle_facade(pre, &wk);
                     let adaptive: Option<sdk::AdaptiveFeeInfo> = oracle.map(|o| o.into());
                     let Ok(ts) = sdk::TickArraySequence::<3>::new(seq, pool.tick_spacing) else { continue };
+                    if let Some(o) = pre.data(&crate::ix::pda_oracle(&wk)).and_then(decode::oracle) {
+                        if o.c.tick_group_size > 0 {
+                            let (_, class) = crate::mon::c14::model_reference(&o.v, &o.c, 0, now);
+                            cov.probe(&format!("quoted_on_reference_state_{}", class));
+                        }
+                    }
                     // swaps before the trade-enable time are refused by the program regardless of the quote
                     let enabled = oracle.map(|o| o.trade_enable_timestamp <= now).unwrap_or(true);
                     // the SDK panics are failures of the SDK
